@@ -213,7 +213,7 @@ def run(F, R, tier):
             n_r += 1
             f = {x["name"]: peel_value(x["e"]) for x in l["fields"]}
             for fld in ("is_root", "is_asset", "in_dynamic_branch", "maybe_attribute_type"):
-                R.ob("C01-b", "a redirected load keeps the request's %s" % fld, f[fld].get("lid") in binds,
+                R.ob("C01-b", "a redirected load keeps the request's %s" % fld, any(peel_value(y).get("lid") in binds for y in through_locals(f[fld])),
                      "the load that follows a loader redirect takes %s from `%s` instead of from the redirected request: e.g. a redirected root would be loaded as a non-root (unknown media types / JSON without attribute then become errors and the root's closure is missing)" % (fld, expr_text(f[fld])[:50]), where(l))
     R.floor("C01-b redirect continuation", n_r, 1)
     tl_ = [b for b in F.bodies if b["path"].endswith("try_load") and "load_pending_module" in b["path"]]
